@@ -13,7 +13,7 @@ VERIF = config.VERIF
 
 
 def write(rec, prop, slug):
-    d = os.path.join(VERIF, "replays")
+    d = os.environ.get("PCV_REPLAY_DIR") or os.path.join(VERIF, "replays")
     os.makedirs(d, exist_ok=True)
     slug = re.sub(r"[^A-Za-z0-9_.@-]+", "_", slug)[:120]
     path = os.path.join(d, "%s-%s.json" % (prop, slug))
